@@ -2,6 +2,7 @@
    and prints one canonical result line per case.  Hand-written glue: an s-expression
    reader, conversions between OCaml ints/strings and Coq's extracted datatypes, printers. *)
 open Model
+type string = Stdlib.String.t   (* Coq's own string type is extracted too (CLite): keep OCaml's here *)
 
 (* ---------------------------------------------------------------- s-expressions *)
 type sexp = A of string | L of sexp list
